@@ -165,11 +165,14 @@ def main():
             obl['run:driver'] = (False, repr(ex))
     # ---- an obligation broke and the sampled traces show no failure: search harder for a concrete failing input
     pre_broken = [k for k, (ok, _) in obl.items() if not ok] + [d['component'] for d in results.get('disagreements', [])]
-    if impl_ok and pre_broken and not results.get('failures') and not replay and tier == 'quick':
+    kf0 = json.load(open(os.path.join(VERIF, 'known_findings.json')))
+    known0 = {f['class'] for f in kf0.get('findings', []) if f['property'] == pid}
+    unknown0 = [f for f in results.get('failures', []) if f.get('class') not in known0]
+    if impl_ok and pre_broken and not unknown0 and not replay and tier == 'quick':
         try:
             sctx = props.Ctx(pid, 'thorough', rng.fork('search'), os.path.join(outdir, 'search'), with_model=False)
             sres = P.get('search', P['run'])(sctx)
-            results['failures'] = sres.get('failures', [])
+            results['failures'] = results.get('failures', []) + sres.get('failures', [])
             results['searched'] = 'thorough-tier generation (%d histories) on the implementation after the obligation broke' % sres.get('n_eval', 0)
             results['n_eval'] = results.get('n_eval', 0) + sres.get('n_eval', 0)
         except Exception as ex:
